@@ -220,7 +220,7 @@ class C05(DecProp):
     id = "C05"
     thm_module = "H263V.Thm.C05"
     rule = ("P lines: (a) histories containing rejected pictures at every depth (header, macroblock header, block data, prediction) followed by valid continuations; "
-            "(b) every byte split of a valid picture across two deliveries (append part 1, decode, append part 2, decode) against the single delivery.  On the implementation's "
+            "(b) every byte split (thorough: of pictures up to 400 bytes, 300 random splits of longer ones; quick: up to 60 bytes, 40 random splits) of a valid picture across two deliveries (append part 1, decode, append part 2, decode) against the single delivery.  On the implementation's "
             "own output: after a call that returned an error the last picture, the reference picture, the carried-over option bits (hook `verif_running_options`) and the number of unread bits are those before the call (plus the bits appended), "
             "and a call that failed for lack of data, repeated after the rest was appended, yields the single-delivery picture; "
             "(b2) `junction`: two pictures in one source, the second 0..7 zero bits behind the first, delivered in two pieces cut at every byte around the junction; (c) `leak`: a PLUSPTYPE picture that announces options (modified quantization, unrestricted vectors, ...) and is rejected after its header, followed by a picture "
@@ -241,12 +241,15 @@ class C05(DecProp):
             out.append(f"P {t[1]} " + ";".join(ops2))
         # split deliveries
         self._splits = {}
-        whole = core.gen_lines("intra", seed + 2, core.q(tier, 40, 300))
+        whole = core.gen_lines("intra", seed + 2, core.q(tier, 40, 200))
         for l in whole:
             t = l.split(" ")
             hx = t[2][2:]
             nb = len(hx) // 2
-            ks = range(1, nb) if nb <= 60 or tier == "thorough" else sorted(set(rng.randrange(1, nb) for _ in range(40)))
+            if tier == "thorough":
+                ks = range(1, nb) if nb <= 400 else sorted(set(rng.randrange(1, nb) for _ in range(300)))
+            else:
+                ks = range(1, nb) if nb <= 60 else sorted(set(rng.randrange(1, nb) for _ in range(40)))
             out.append(l)
             for k in ks:
                 s = f"P {t[1]} a:{hx[:2 * k]};n;a:{hx[2 * k:]};n"
